@@ -168,7 +168,7 @@ def flip_row(row):
 
 
 def make(d, family, pal, U, att='default', W=None, okind='minmax', mask=None, adapt_style='entry',
-         style='A', orient=0, split=False, obj_first=True, attach='list', solver=None, vec=False, pw=False):
+         style='A', orient=0, split=False, obj_first=True, attach='list', solver=None, vec=False, pw=False, pwoff=None):
     """Assemble one spec.  U / W are set names of sets_catalog(d)."""
     cat = sets_catalog(d)
     t = template(family, d, pal, mask)
@@ -238,6 +238,9 @@ def make(d, family, pal, U, att='default', W=None, okind='minmax', mask=None, ad
     if pw:
         spec['pw'] = True
         spec['tag'] += '|pw'
+    if pwoff:
+        spec['pwoff'] = list(pwoff)
+        spec['tag'] += '|off:%s.%s' % tuple(pwoff)
     return spec
 
 
@@ -323,6 +326,18 @@ def _gen_pal(pal, thorough):
                 for orient in (0, 1):
                     yield make(2, fam, pal, U, att=att, W='n1' if U != 'n1' else 'box', okind=okind, orient=orient, pw=True,
                                attach='list' if orient else 'args')
+    # P11: the same piecewise functions written with an offset:  maxof(g-h,..)+h, h+maxof(g-h,..), maxof(g+h,..)-h,
+    #      h-minof(h-g,..)  for h constant / affine in x / affine in z, in objectives and in constraints
+    offs = [(hk, form) for hk in ('const', 'x', 'z') for form in ('add', 'radd', 'sub', 'rsub')]
+    for U in ('box', 'n2', 'kl') if not thorough else ('box', 'boxhalf', 'abs', 'n1', 'seg', 'n2', 'pn3', 'kl', 'n2^half'):
+        for fam in ('S', 'L1', 'L2'):
+            for off in offs:
+                for okind, att in (('minmax_pw', 'default'), ('maxmin_pw', 'default'), ('min_pw', 'forall')):
+                    yield make(2, fam, pal, U, att=att, okind=okind, pwoff=off)
+                for att, okind in (('default', 'minmax'), ('forall', 'min'), ('first_own', 'maxmin_pw'), ('forall_mixed', 'min_pw')):
+                    for orient in (0, 1):
+                        yield make(2, fam, pal, U, att=att, W='n1', okind=okind, orient=orient, pw=True, pwoff=off,
+                                   attach='list' if orient else 'args')
     # P6: robust equalities (feasible: coefficients inside the mask; infeasible otherwise)
     for U in ('box', 'n1', 'n2', 'seg', 'fixed', 'kl', 'boxmix'):
         for mask in all_masks(1, 2):
